@@ -158,3 +158,29 @@ fn main() {
     _ => usage(),
   }
 }
+
+/// Abandoned executions (deadlock / budget) leak their blocked OS threads. A worker process that has
+/// accumulated many of them replaces itself (exec) by a fresh worker for the rest of its range, so long
+/// explorations do not run the machine out of thread ids (kernel.pid_max). `next` = first index not yet done.
+pub fn recycle_if_leaky(next: usize) {
+  let threads = std::fs::read_to_string("/proc/self/status")
+    .ok()
+    .and_then(|s| s.lines().find(|l| l.starts_with("Threads:")).and_then(|l| l[8..].trim().parse::<usize>().ok()))
+    .unwrap_or(0);
+  let cap = std::env::var("CHANH_THREAD_CAP").ok().and_then(|v| v.parse().ok()).unwrap_or(300usize);
+  if threads <= cap {
+    return;
+  }
+  use std::os::unix::process::CommandExt;
+  let mut args: Vec<String> = std::env::args().collect();
+  match args.iter().position(|a| a == "--lo") {
+    Some(p) if p + 1 < args.len() => args[p + 1] = next.to_string(),
+    _ => {
+      args.push("--lo".into());
+      args.push(next.to_string());
+    }
+  }
+  let exe = std::env::current_exe().expect("current_exe");
+  let err = std::process::Command::new(exe).args(&args[1..]).exec();
+  eprintln!("chanh: re-exec failed: {err}");
+}
